@@ -227,22 +227,22 @@ theorem pot_step (g : Cfg) (n : Nat) (vis rest : List Nat) (x : Nat) (hx : x < n
   simp only [pot, List.map_append, List.sum_append, List.map_cons, List.sum_cons]
   omega
 
-theorem runCur_steps (g : Cfg) (hwf : wf g = true) (tgt : Nat) :
+theorem runOld_steps (g : Cfg) (hwf : wf g = true) (tgt : Nat) :
     ∀ (fuel : Nat) (s : PState) (c : Nat), (∀ x ∈ s.que, x < g.length) →
-      (runWith (stepCur g tgt) fuel s c).steps ≤ c + pot (maxDeg g) g.length s.que s.vis
+      (runWith (stepOld g tgt) fuel s c).steps ≤ c + pot (maxDeg g) g.length s.que s.vis
   | 0, s, c, _ => by simp [runWith]
   | fuel + 1, s, c, hq => by
     cases hqe : s.que with
-    | nil => simp [runWith, stepCur, hqe]
+    | nil => simp [runWith, stepOld, hqe]
     | cons cur rest =>
       have hcur : cur < g.length := hq cur (by simp [hqe])
       by_cases hc : cur = tgt
       · have := geo_pos (maxDeg g)
-        simp only [runWith, stepCur, hqe, hc, if_true, pot, List.map_cons, List.sum_cons]
+        simp only [runWith, stepOld, hqe, hc, if_true, pot, List.map_cons, List.sum_cons]
         have hw : 1 ≤ wgt (maxDeg g) g.length s.vis tgt := by
           unfold wgt; split <;> exact geo_pos _ _
         omega
-      · have ih := runCur_steps g hwf tgt fuel
+      · have ih := runOld_steps g hwf tgt fuel
           { que := rest ++ (succs g cur).filter (fun nb => !(cur :: s.vis).contains nb), vis := cur :: s.vis } (c + 1)
           (by
             intro x hx
@@ -252,7 +252,7 @@ theorem runCur_steps (g : Cfg) (hwf : wf g = true) (tgt : Nat) :
             · exact succs_lt g hwf cur x h.1)
         have hp := pot_step g g.length s.vis rest cur hcur
         dsimp only at ih
-        simp only [runWith, stepCur, hqe, hc, if_false]
+        simp only [runWith, stepOld, hqe, hc, if_false]
         omega
 
 end Argot.C07
